@@ -208,7 +208,7 @@ def _handler_names(h):
 
 def extract_handlers():
     """exception classes caught around model construction and around the compute loop of main"""
-    res = dict(setupCaught=None, kernelCaught=None)
+    res = dict(setupCaught=None, kernelCaught=None, outputCaught=None)
     try:
         tree = ast.parse(open(os.path.join(REPO, 'mininec/mininec.py')).read())
     except Exception:
@@ -230,6 +230,8 @@ def extract_handlers():
                 res['setupCaught'] = caught
             if 'compute' in names and res['kernelCaught'] is None:
                 res['kernelCaught'] = caught
+            if 'as_basic_input' in names and 'as_cmdline' in names and 'open' in names and res['outputCaught'] is None:
+                res['outputCaught'] = caught
     return res
 
 
@@ -259,7 +261,7 @@ def render(consts, missing):
             L.append('def %s : RatLit := ⟨0, 1⟩' % name)
         L.append('')
     hd = extract_handlers()
-    for k in ('setupCaught', 'kernelCaught'):
+    for k in ('setupCaught', 'kernelCaught', 'outputCaught'):
         v = hd[k]
         if v is None:
             missing.append(k)
